@@ -592,7 +592,7 @@ def merge_stats(all_stats):
 
 
 def write_evidence(prop, tier, seed, level, coverage, assumptions, wall, violations):
-    evdir = os.environ.get('VERIF_EVIDENCE_DIR') or os.path.join(VERIF, 'evidence')   # override: mutation/sensitivity runs only (tools/sens.sh)
+    evdir = os.environ.get('VERIF_EVIDENCE_DIR') or (os.path.join(BUILD, 'run', 'evidence-partial') if os.environ.get('VERIF_ONLY_STAGE') else os.path.join(VERIF, 'evidence'))   # override: mutation/sensitivity runs only (tools/sens.sh)
     os.makedirs(evdir, exist_ok=True)
     ev = dict(property_id=prop, tier=tier, seed=seed, level=level, coverage=coverage, assumptions=assumptions,
               wall_s=round(wall, 2), violations=violations)
